@@ -205,6 +205,37 @@ def _inline_block(stmts, resolve, depth, stack):
                 setattr(st, fld, _inline_block(blk, resolve, depth, stack))
         for h in getattr(st, "handlers", []) or []:
             h.body = _inline_block(h.body, resolve, depth, stack)
+        # multi-statement helpers called inside an expression of a simple statement are hoisted:
+        #   y = f(self._h(x))   ->   _hoistK = self._h(x); y = f(_hoistK)     (then inlined as an assignment)
+        if depth > 0 and isinstance(st, (ast.Assign, ast.AugAssign, ast.Expr, ast.Return, ast.AnnAssign)):
+            top = st.value if isinstance(getattr(st, "value", None), ast.Call) and not isinstance(st, ast.AugAssign) else None
+            hoisted = []
+
+            class _Hoist(ast.NodeTransformer):
+                def visit_Call(self, node):
+                    self.generic_visit(node)
+                    if node is top:
+                        return node
+                    r = resolve(node)
+                    if r is None or any(r[0] is c for c in stack) or not _inlinable(r[0]) \
+                            or _single_return_expr(r[0]) is not None or not _always_returns(r[0].body) \
+                            or _bind(r[0], r[1], node.keywords) is None:
+                        return node
+                    _counter[0] += 1
+                    nm = "_hoist%d" % _counter[0]
+                    hoisted.append(ast.Assign(targets=[ast.Name(id=nm, ctx=ast.Store())], value=node))
+                    return ast.copy_location(ast.Name(id=nm, ctx=ast.Load()), node)
+
+                def visit_Lambda(self, node):
+                    return node
+
+            if isinstance(getattr(st, "value", None), ast.expr):
+                st.value = _Hoist().visit(st.value)
+            if hoisted:
+                _relocate(hoisted, st)
+                for h in hoisted:
+                    ast.fix_missing_locations(h)
+                out += _inline_block(hoisted, resolve, depth, stack)
         call, mode = None, None
         if isinstance(st, ast.Expr) and isinstance(st.value, ast.Call):
             call, mode = st.value, "stmt"
@@ -282,6 +313,7 @@ def _inline_exprs(st, resolve, depth, stack):
 
 
 def inline_helpers(fn, resolve, depth=2):
+    _counter[0] = 0  # fresh names are deterministic per anchored function
     new = _ast_clone(fn)
     for n in ast.walk(new):
         n.__dict__.pop("_parent", None)
